@@ -147,4 +147,47 @@ theorem initState_inj (o o' k k' : Nat) (s s' q q' : Bytes)
   rw [map_range_get _ _ _ hi, map_range_get _ _ _ hi] at e
   exact (UInt64.xor_right_inj _).mp e
 
+/-! ### the KDF output as ONE keyed final compression of the initial chaining value -/
+
+open Spec.Blake2b in
+/-- with a 32-byte key and an empty message BLAKE2b absorbs exactly one block: the zero-padded key -/
+theorem blocksOf_key32 (key : Bytes) (hk : key.length = 32) : blocksOf key [] = [fit blockBytes key] := by
+  have hne : key.isEmpty = false := by
+    cases key with
+    | nil => simp at hk
+    | cons b bs => rfl
+  have hl : (fit blockBytes key).length = 127 + 1 := Proofs.Curve.fit_length _ _
+  have hne' : (fit blockBytes key).isEmpty = false := by
+    cases h : fit blockBytes key with
+    | nil => rw [h] at hl; simp at hl
+    | cons b bs => rfl
+  unfold blocksOf
+  simp only [hne, List.append_nil, Bool.false_eq_true, if_false, hne']
+  unfold chunks
+  rw [hl, chunksAux]
+  simp only [hne', Bool.false_eq_true, if_false]
+  have ht : (fit blockBytes key).take blockBytes = fit blockBytes key :=
+    List.take_of_length_le (by rw [hl]; decide)
+  have hd : (fit blockBytes key).drop blockBytes = [] :=
+    List.drop_of_length_le (by rw [hl]; decide)
+  rw [ht, hd]
+  cases (127 : Nat) <;> simp [chunksAux]
+
+open Spec.Blake2b in
+/-- **the KDF's BLAKE2b call, unfolded**: the sub-key is the first `len` bytes of ONE final compression
+`F(h₀, key ‖ 0⁹⁶, t = 128, last)` of the initial chaining value `h₀ = IV ⊕ paramBlock(len, 32, salt, personal)` —
+the only place where length, id and context enter -/
+theorem hashSP_key32 (len : Nat) (key salt pers : Bytes) (hk : key.length = 32) :
+    hashSP len key salt pers [] =
+      (bytesOfWords (compress (initState len 32 salt pers) (fit blockBytes key) blockBytes true)).take len := by
+  unfold hashSP
+  simp only [blocksOf_key32 key hk, hk, absorb, Proofs.Curve.fit_length, Nat.zero_add]
+
+open Spec.Blake2b in
+theorem hashSP_key32_length (len : Nat) (key salt pers : Bytes) (hk : key.length = 32) (hl : len ≤ 64) :
+    (hashSP len key salt pers []).length = len := by
+  rw [hashSP_key32 len key salt pers hk, List.length_take,
+    Proofs.Blake2b.bytesOfWords_length _ (by simp [compress])]
+  omega
+
 end DryocVerif.Proofs.KdfExtra
